@@ -53,14 +53,197 @@ Section Minimisers.
     length (dQ D1) <= length (dQ D2).
   Proof.
     intros (_ & _ & Hnd1 & _ & _ & Hne1 & _ & _ & Hdiff1) (_ & _ & _ & _ & _ & _ & Hcov2 & Hsame2 & _).
-    apply (rel_image_length (fun (S1 S2 : list A) => exists q, In q S1 /\ In q S2)); [exact Hnd1| |].
+    apply (rel_image_length (fun (S1 S2 : list A) => In S2 (dQ D2) /\ exists q, In q S1 /\ In q S2)); [exact Hnd1| |].
     - intros S1 HS1. destruct (Hne1 S1 HS1) as [Hn Hinc]. destruct S1 as [|q S1']; [contradiction|].
       destruct (Hcov2 q (Hinc q (or_introl eq_refl))) as (S2 & HS2 & Hq2).
-      exists S2. split; [exact HS2|]. exists q. split; [left; reflexivity | exact Hq2].
-    - intros S1 S1' S2 HS1 HS1' (q & Hq1 & Hq2) (q' & Hq1' & Hq2').
-      destruct (in_dec (fun x y => eqb_dec x y) S2 (dQ D2)) as [HS2|Hn2].
-      + apply (Hdiff1 S1 S1' q q' HS1 HS1' Hq1 Hq1'). apply (Hsame2 S2); assumption.
-      + (* S2 need not be a state of D2 in the injectivity clause: use a state of D2 that contains q *)
-        exfalso. clear - Hn2 Hq2 HS1 Hq1 Hne1 Hcov2. (* not provable this way *)
-  Abort.
+      exists S2. split; [exact HS2|]. split; [exact HS2|]. exists q. split; [left; reflexivity | exact Hq2].
+    - intros S1 S1' S2 HS1 HS1' (HS2 & q & Hq1 & Hq2) (_ & q' & Hq1' & Hq2').
+      apply (Hdiff1 S1 S1' q q' HS1 HS1' Hq1 Hq1'). apply (Hsame2 S2); assumption.
+  Qed.
+
+  Lemma min_spec_states_match (D : dfa A) (D1 D2 : dfa (list A)) : min_spec D D1 -> min_spec D D2 ->
+    forall S1, In S1 (dQ D1) -> exists S2, In S2 (dQ D2) /\ seteq S1 S2.
+  Proof.
+    intros (_ & _ & _ & _ & _ & Hne1 & Hcov1 & Hsame1 & Hdiff1) (_ & _ & _ & _ & _ & Hne2 & Hcov2 & Hsame2 & Hdiff2) S1 HS1.
+    destruct (Hne1 S1 HS1) as [Hn Hinc1]. destruct S1 as [|q S1']; [contradiction|]. clear Hn.
+    set (S1 := q :: S1') in *. assert (Hq1 : In q S1) by (left; reflexivity).
+    destruct (Hcov2 q (Hinc1 q Hq1)) as (S2 & HS2 & Hq2). exists S2. split; [exact HS2|].
+    destruct (Hne2 S2 HS2) as [_ Hinc2]. intros x. split.
+    - intros Hx. destruct (Hcov2 x (Hinc1 x Hx)) as (S2' & HS2' & Hx2).
+      assert (E : S2 = S2') by (apply (Hdiff2 S2 S2' q x HS2 HS2' Hq2 Hx2); apply (Hsame1 S1); assumption).
+      rewrite E. exact Hx2.
+    - intros Hx. destruct (Hcov1 x (Hinc2 x Hx)) as (S1'' & HS1'' & Hx1).
+      assert (E : S1 = S1'') by (apply (Hdiff1 S1 S1'' q x HS1 HS1'' Hq1 Hx1); apply (Hsame2 S2); assumption).
+      rewrite E. exact Hx1.
+  Qed.
+
+  (* any two automata that satisfy the common specification of the minimisers: same language, same number of states,
+     and the same states up to the order in which the members of a block are listed *)
+  Theorem min_spec_unique (D : dfa A) (D1 D2 : dfa (list A)) : min_spec D D1 -> min_spec D D2 ->
+    (forall w, over D w -> (dfa_lang D1 w <-> dfa_lang D2 w)) /\
+    dS D1 = dS D2 /\
+    length (dQ D1) = length (dQ D2) /\
+    (forall S1, In S1 (dQ D1) -> exists S2, In S2 (dQ D2) /\ seteq S1 S2).
+  Proof.
+    intros H1 H2. split; [|split; [|split]].
+    - intros w Hw. destruct H1 as (_ & _ & _ & L1 & _). destruct H2 as (_ & _ & _ & L2 & _).
+      rewrite (L1 w Hw), (L2 w Hw). tauto.
+    - destruct H1 as (_ & E1 & _). destruct H2 as (_ & E2 & _). rewrite E1, E2. reflexivity.
+    - apply Nat.le_antisymm; [apply (min_spec_states_le D D1 D2 H1 H2) | apply (min_spec_states_le D D2 D1 H2 H1)].
+    - apply (min_spec_states_match D D1 D2 H1 H2).
+  Qed.
+
+  (* D' is the result of some run of one of the three minimisers, for some admissible choice of the naming function,
+     the iteration orders, the representative function and the picker *)
+  Definition is_min_run (D : dfa A) (D' : dfa (list A)) : Prop :=
+    exists canon : list A -> list A, (forall l y, In y (canon l) <-> In y l) /\
+      ((exists ord : list A -> list A, (forall l, Permutation (ord l) l) /\ dfa_minimize canon ord D = Some D') \/
+       (exists (ord : list A -> list A) (rep : list A -> option A),
+          (forall l, Permutation (ord l) l) /\ (forall l, l <> [] -> exists x, rep l = Some x /\ In x l) /\
+          dfa_quotient canon ord rep D = Some D') \/
+       (exists (ordB : list (list A) -> list (list A)) (pick : picker (list A * nat)),
+          (forall l, Permutation (ordB l) l) /\ picker_ok pick /\ dfa_hopcroft canon ordB pick D = Some D')).
+
+  Lemma is_min_run_spec (D : dfa A) (D' : dfa (list A)) : dfa_wf D -> NoDup (dQ D) -> NoDup (dF D) ->
+    is_min_run D D' -> min_spec D D'.
+  Proof.
+    intros Hwf HndQ HndF (canon & Hcanon & [(ord & Hord & E)|[(ord & rep & Hord & Hrep & E)|(ordB & pick & HordB & Hpick & E)]]).
+    - destruct (dfa_minimize_spec canon Hcanon ord Hord D Hwf HndQ HndF) as (D0 & E0 & Hs).
+      rewrite E in E0. inversion E0; subst D0. exact Hs.
+    - destruct (dfa_quotient_spec canon Hcanon ord rep Hord Hrep D Hwf HndQ HndF) as (D0 & E0 & Hs).
+      rewrite E in E0. inversion E0; subst D0. exact Hs.
+    - destruct (dfa_hopcroft_spec canon Hcanon ordB pick HordB Hpick D Hwf HndQ HndF) as (D0 & E0 & Hs).
+      rewrite E in E0. inversion E0; subst D0. exact Hs.
+  Qed.
+
+  (* all nine combinations (and different naming functions) in one statement *)
+  Theorem minimisers_order_independent (D : dfa A) (D1 D2 : dfa (list A)) :
+    dfa_wf D -> NoDup (dQ D) -> NoDup (dF D) -> is_min_run D D1 -> is_min_run D D2 ->
+    (forall w, over D w -> (dfa_lang D1 w <-> dfa_lang D2 w)) /\
+    dS D1 = dS D2 /\
+    length (dQ D1) = length (dQ D2) /\
+    (forall S1, In S1 (dQ D1) -> exists S2, In S2 (dQ D2) /\ seteq S1 S2).
+  Proof.
+    intros Hwf HndQ HndF R1 R2.
+    apply (min_spec_unique D D1 D2); apply is_min_run_spec; assumption.
+  Qed.
 End Minimisers.
+
+(* ================= 3. isomorphism tests: set_element ================= *)
+Section IsoPick.
+  Context {A B : Type} `{Eqb A} `{Eqb B}.
+
+  Lemma bool_same_spec (b1 b2 : bool) (P : Prop) : (b1 = true <-> P) -> (b2 = true <-> P) -> b1 = b2.
+  Proof. intros H1 H2. destruct b1, b2; try reflexivity; [symmetry|]; tauto. Qed.
+
+  (* the two routines, with any two pickers, return the same verdict *)
+  Theorem iso_pick_independent (D1 : dfa A) (D2 : dfa B) (pick1 pick2 : picker (A * B)) :
+    dfa_wf D1 -> dfa_wf D2 -> seteq (dS D1) (dS D2) -> picker_ok pick1 -> picker_ok pick2 ->
+    iso_matrix pick1 D1 D2 = iso_matrix pick2 D1 D2 /\
+    iso1 pick1 D1 D2 = iso1 pick2 D1 D2 /\
+    iso_matrix pick1 D1 D2 = iso1 pick2 D1 D2.
+  Proof.
+    intros Hwf1 Hwf2 HS Hp1 Hp2.
+    destruct (iso_matrix_correct D1 D2 pick1 Hwf1 Hwf2 HS Hp1) as (m1 & Em1 & Hm1).
+    destruct (iso_matrix_correct D1 D2 pick2 Hwf1 Hwf2 HS Hp2) as (m2 & Em2 & Hm2).
+    destruct (iso1_correct D1 D2 pick1 Hwf1 Hwf2 HS Hp1) as (i1 & Ei1 & Hi1).
+    destruct (iso1_correct D1 D2 pick2 Hwf1 Hwf2 HS Hp2) as (i2 & Ei2 & Hi2).
+    rewrite Em1, Em2, Ei1, Ei2.
+    rewrite (bool_same_spec m1 m2 _ Hm1 Hm2), (bool_same_spec i1 i2 _ Hi1 Hi2), (bool_same_spec m2 i2 _ Hm2 Hi2).
+    auto.
+  Qed.
+End IsoPick.
+
+(* ================= 4. dfa_to_regexp: elimination order ================= *)
+Section RegexpOrder.
+  Context {A : Type} `{Eqb A}.
+
+  Theorem dfa_to_regexp_order_independent (start accept : A) (order1 order2 : list A) (D : dfa A) (r1 r2 : re) :
+    dfa_wf D -> NoDup (map fst (dD D)) -> NoDup (dQ D) -> start <> accept ->
+    Permutation order1 (dQ D) -> Permutation order2 (dQ D) ->
+    dfa_to_regexp start accept order1 D = Some r1 -> dfa_to_regexp start accept order2 D = Some r2 ->
+    forall w, re_lang r1 w <-> re_lang r2 w.
+  Proof.
+    intros Hwf Hk Hnd Hsa P1 P2 E1 E2 w.
+    rewrite (dfa_to_regexp_correct Hwf Hk Hnd Hsa P1 E1 w), (dfa_to_regexp_correct Hwf Hk Hnd Hsa P2 E2 w). tauto.
+  Qed.
+
+  (* success does not depend on the order either *)
+  Theorem dfa_to_regexp_order_independent_fail (start accept : A) (order1 order2 : list A) (D : dfa A) :
+    dfa_to_regexp start accept order1 D = None <-> dfa_to_regexp start accept order2 D = None.
+  Proof. rewrite !dfa_to_regexp_none. tauto. Qed.
+End RegexpOrder.
+
+(* ================= 5. Chomsky normal form: iteration order over the variables ================= *)
+Theorem elim_unit_order_independent ordV1 ordV2 G G1 G2 :
+  cfg_wf G -> EU.names_disjoint G -> EU.perm_order ordV1 -> EU.perm_order ordV2 ->
+  elim_unit ordV1 G = Some G1 -> elim_unit ordV2 G = Some G2 ->
+  gV G1 = gV G2 /\ gSg G1 = gSg G2 /\ gS G1 = gS G2 /\
+  forall A rhs, has_rule G1 A rhs <-> has_rule G2 A rhs.
+Proof.
+  intros Hwf Hdj P1 P2 E1 E2.
+  destruct (EU.elim_unit_correct ordV1 G G1 Hwf Hdj P1 E1) as (_ & V1 & Sg1 & S1 & _ & _ & _ & _ & Hind).
+  destruct (EU.elim_unit_correct ordV2 G G2 Hwf Hdj P2 E2) as (_ & V2 & Sg2 & S2 & _).
+  split; [congruence|]. split; [congruence|]. split; [congruence|].
+  exact (Hind ordV2 G2 P2 E2).
+Qed.
+
+Theorem to_chomsky_order_independent ordV1 ordV2 stream G G1 rest1 G2 rest2 :
+  cfg_wf G -> EU.names_disjoint G -> In (gS G) (gV G) -> EU.perm_order ordV1 -> EU.perm_order ordV2 ->
+  (forall x, In x stream -> ~ In x (gSg G)) ->
+  to_chomsky ordV1 stream G = Some (G1, rest1) -> to_chomsky ordV2 stream G = Some (G2, rest2) ->
+  gSg G1 = gSg G2 /\ forall w, cfg_lang G1 w <-> cfg_lang G2 w.
+Proof.
+  intros Hwf Hdj HS P1 P2 Hst E1 E2.
+  destruct (ChomskyFinal.to_chomsky_correct ordV1 stream G Hwf Hdj HS P1 Hst E1) as (_ & _ & Sg1 & _ & L1).
+  destruct (ChomskyFinal.to_chomsky_correct ordV2 stream G Hwf Hdj HS P2 Hst E2) as (_ & _ & Sg2 & _ & L2).
+  split; [congruence|]. intros w. rewrite (L1 w), (L2 w). tauto.
+Qed.
+
+(* ================= 6. PDA simulation: set.pop in the closure ================= *)
+(* restated from PDAProofs, with independent limits *)
+Theorem pda_accepts_pick_independent pick1 pick2 P limit1 limit2 w v1 v2 : picker_ok pick1 -> picker_ok pick2 ->
+  pda_accepts pick1 P limit1 w = (v1, false) -> pda_accepts pick2 P limit2 w = (v2, false) -> v1 = v2.
+Proof.
+  intros H1 H2 E1 E2.
+  apply (@pda_accepts_completex pick1 P limit1 H1 w v1) in E1.
+  apply (@pda_accepts_completex pick2 P limit2 H2 w v2) in E2.
+  destruct v1, v2; try reflexivity; [symmetry|]; tauto.
+Qed.
+
+Theorem pda_words_pick_independent pick1 pick2 P limit1 limit2 n L1 L2 : picker_ok pick1 -> picker_ok pick2 ->
+  pda_words pick1 P limit1 n = (L1, false) -> pda_words pick2 P limit2 n = (L2, false) -> seteq L1 L2.
+Proof.
+  intros H1 H2 E1 E2 w.
+  rewrite (@pda_words_exactx pick1 P limit1 H1 n L1 E1 w), (@pda_words_exactx pick2 P limit2 H2 n L2 E2 w). tauto.
+Qed.
+
+(* the closure itself: two picks, neither truncated, same set of configurations *)
+Theorem pda_eclose_pick_independent pick1 pick2 P limit1 limit2 R res1 res2 : picker_ok pick1 -> picker_ok pick2 ->
+  pda_eclose pick1 P limit1 R = (res1, []) -> pda_eclose pick2 P limit2 R = (res2, []) -> seteq res1 res2.
+Proof.
+  intros H1 H2 E1 E2 c.
+  rewrite (@pda_eclose_exact pick1 P H1 limit1 R res1 E1 c), (@pda_eclose_exact pick2 P H2 limit2 R res2 E2 c). tauto.
+Qed.
+
+(* ================= 7. nfa_simulate_word: the verdict (a run / no run) ================= *)
+Section SimVerdict.
+  Context {A : Type} `{Eqb A}.
+
+  Theorem nfa_simulate_pick_independent_verdict (pick1 pick2 : picker A) (N : nfa A) (w : word) :
+    picker_ok pick1 -> picker_ok pick2 -> nfa_wf N -> Forall (fun a => In a (nS N)) w ->
+    (nfa_accepts N w = Some true /\
+     exists run1 run2, nfa_simulate pick1 N w = Some run1 /\ nfa_simulate pick2 N w = Some run2 /\
+                       nfa_run_ok N w run1 = true /\ nfa_run_ok N w run2 = true) \/
+    (nfa_accepts N w = Some false /\ nfa_simulate pick1 N w = None /\ nfa_simulate pick2 N w = None).
+  Proof.
+    intros H1 H2 Hwf Hw. destruct (nfa_accepts_correct N w Hwf Hw) as (b & Eb & _). destruct b.
+    - left. split; [exact Eb|].
+      destruct (nfa_simulate_sound pick1 H1 N Hwf w Hw Eb) as (run1 & E1 & K1).
+      destruct (nfa_simulate_sound pick2 H2 N Hwf w Hw Eb) as (run2 & E2 & K2).
+      exists run1, run2. auto.
+    - right. split; [exact Eb|]. split.
+      + apply (nfa_simulate_none pick1 H1 N Hwf w Hw Eb).
+      + apply (nfa_simulate_none pick2 H2 N Hwf w Hw Eb).
+  Qed.
+End SimVerdict.
